@@ -2,3 +2,4 @@ import PfdlModel.Generated
 import PfdlModel.Basic
 import PfdlModel.Sched
 import PfdlModel.Api
+import PfdlModel.Check
